@@ -140,7 +140,8 @@ def _case(draw, tier):
         c["exc"] = draw(st.sampled_from(["kill", "kill", "ctrlc", "error"]))
     cfg = dict(idspace=(ncr + 3) * nvar * (rep_max + 1) + 4,
                unpacked=unpacked, container={}, fixed=[["bias", 1.5],
-                                                       ["mode", "x"]],
+                                                       ["mode", "x"]] + (
+                   [["ant", [2, 4]]] if draw(st.booleans()) else []),
                rep_max=rep_max, stop=stop, skips=skips,
                filename=draw(st.sampled_from(["res", "res_{bias}"])),
                ext=draw(st.sampled_from(["", "", ".json"])),
@@ -148,6 +149,7 @@ def _case(draw, tier):
     if draw(st.integers(0, 3)) == 0:
         cfg["partial_folder"] = None
     final = draw(st.sampled_from(["same", "same", "same", "jobs", "extend",
+                                  "guard_removed", "guard_added",
                                   "shrink_then_same", "guard_fixed",
                                   "guard_unpacked", "guard_unpacked_last"]))
     if final in ("guard_unpacked", "guard_unpacked_last") and not unpacked:
@@ -287,7 +289,13 @@ def _durable_ids(inj, paths, tags, where):
         data = inj.durable.get(path)
         if data is None:
             continue
-        pr = pickle.loads(data)
+        if isinstance(data, bytes):
+            pr = pickle.loads(data)
+        else:
+            # a text file: whatever format the library chose for its partial
+            # results, it can read it back
+            from pyphysim.simulations.results import SimulationResults as _SR
+            pr = _SR.from_json(data)
         ids = H.digits4(pr["ids"][-1].get_result())
         if any(m != 1 for m in ids.values()):
             raise Violation("durable_double_count", "%s: partial file of "
@@ -412,7 +420,8 @@ def _run_scenario(case, ctx, tmp, real_exit_first=False):
         D = _durable_ids(inj, paths, tags, "before final run")
         final = case["final"]
         ctx.label("final=" + final)
-        if final in ("guard_fixed", "guard_unpacked", "guard_unpacked_last"):
+        if final in ("guard_fixed", "guard_unpacked", "guard_unpacked_last",
+                     "guard_removed", "guard_added"):
             if final == "guard_unpacked_last":
                 # only the LAST value of the last (sorted) unpacked parameter
                 # changes: the variations using it differ, the others are
@@ -429,6 +438,11 @@ def _run_scenario(case, ctx, tmp, real_exit_first=False):
             cfg2 = json.loads(json.dumps(cfg))
             if final == "guard_fixed":
                 cfg2["fixed"][1][1] = "y"          # 'mode' (not in file name)
+            elif final == "guard_removed":
+                # the configuration no longer has the parameter 'mode'
+                del cfg2["fixed"][1]
+            elif final == "guard_added":
+                cfg2["fixed"].append(["extra", 3])
             elif final == "guard_unpacked_last":
                 for nv in cfg2["unpacked"]:
                     if nv[0] == lastname:
